@@ -1,5 +1,6 @@
 """C13 — text extraction is total, sound, complete for delimited vectors, duplicate-free."""
 
+from .. import rules_out as RO
 from .. import rules_text as RT
 
 LEVEL = "proof"
@@ -20,4 +21,9 @@ def run(ctx):
     led.explanation = EXPLANATION
     led.assumptions = ["Python re: leftmost, greedy matching; findall returns whole matches when there is no group", "C04.escape: constructors raise only CVSSn errors", "C07.eq for =="]
     n = RT.check_c13(ctx, led)
+    # completeness also rests on the de-duplication test: `cvss not in result` drops a vector that
+    # compares equal to an earlier one, so == must hold only for the same version and the same
+    # defined metric values (the semantic key rule of C07, applied to the two classes the parser builds)
+    for v in (2, 3):
+        RO.check_eq_hash(ctx, led, v, rule="C13.dedup.eq")
     led.require_min("C13", n, 2, "constructor call sites")
